@@ -166,7 +166,7 @@ CLAIMED = {
              "numbers, registered or not, and every way the callback can finish including an exception, a primary with W-bit gets exactly one reply - secondary, SxF0 or S9F5 "
              "(C08_answered_exactly_once), and so for ANY table of registered callbacks whose ways of returning are the secondary - also user callbacks on streams without an SxF0 in the "
              "regenerated catalogue, where a failing callback is answered S9F5 (C08_any_registered_callbacks); without W-bit the handler is silent exactly when nothing is registered (C08_no_wbit_silent_iff), which refutes the statement's last "
-             "sentence (C08_reply_without_wbit_refuted, known finding). Tied to the code by sending generated, empty and garbage bodies to real handlers in both roles.",
+             "sentence (C08_reply_without_wbit_refuted, known finding). Tied to the code by sending generated, empty and garbage bodies to real handlers in both roles. The dispatch itself (SecsHandler._handle_stream_function / _handle_unknown_functions) is read from the source on every run (Gen/SecsDispatch.v) and the model's replies are proved to be that decision carried out, for every table, message and outcome of the callback (C08_dispatch_code_is_model).",
         note=NOTE_COMMON + " The dispatch function itself (_handle_stream_function) and 'replies use message.header.system' are hand-modelled and tied by correspondence; which "
              "bodies make a callback raise is not modelled (every outcome is quantified over instead).",
         technique="Rocq proof (universal statement over regenerated finite callback tables) + Python-ast translator + in-Coq differential correspondence on real handlers",
